@@ -515,7 +515,7 @@ def unit_tokenizer_init_read(sess, ctx):
         eng.prove("C14:read:polls-the-stop-marker-once-before-reading", ib.gets == 1, props=P14)
         if stop:
             eng.prove("C14:read:after-a-stop-returns-end-of-stream-without-touching-the-reader", res is None and gh["rreads"] == 0,
-                      props=P14 + P13)
+                      props=P14 + P13 + ("C08",))
         else:
             eng.prove("C12:read:is-the-wrapped-reader's-block", gh["rreads"] == 1 and (res is blk if rk == 0 else res is None), props=P1214 + P13)
         return None
@@ -1127,8 +1127,40 @@ def unit_saver_init(sess, ctx):
         eng.lib["wave.open"] = lambda e, a, k: log.append(("wave.open", tuple(a))) or w
         for nm in ("setframerate", "setsampwidth", "setnchannels"):
             eng.iface[("IWaveWriter", nm)] = (lambda n: lambda e, o, a, k: log.append((n, a[0])))(nm)
-        fmt = ["wav", None][eng.choose(2, None, "export format wav / guessed None")]
+        fmt = ["wav", None, "ogg"][eng.choose(3, None, "export format wav / guessed None / another format")]
         eng.contracts["auditok.io._guess_audio_format"] = lambda e, f, sv, a, k: fmt
+        # a non-wav export writes to an intermediate wav first: its name must be one that does NOT exist yet (a name taken
+        # blindly may belong to another saver, or to the user) -- the search loop queries the file system until it finds one
+        exq = []
+
+        def lib_exists(e, a, k):
+            b = Bool(fresh_name("exists"))
+            exq.append((a[0], b))
+            return b
+        eng.lib["os.path.exists"] = lib_exists
+
+        class NameLoop:
+            def run_while(self, e, st_, fr):
+                k_ = e.choose(3, None, "name search: first candidate is free / one more candidate / a later candidate is free")
+                if k_ == 0:
+                    if e.decide(e.truth(e.eval(st_.test, fr))):
+                        raise PathEnd()
+                    return
+                fr.env["i"] = Int(fresh_name("i"))
+                e.assume(fr.env["i"] >= 0)
+                fr.env["filename"] = Opq(tag="str")
+                if k_ == 1:
+                    if not e.decide(e.truth(e.eval(st_.test, fr))):
+                        raise PathEnd()
+                    try:
+                        e.exec_block(st_.body, fr)
+                    except (_Break, _Continue):
+                        pass
+                    raise PathEnd()
+                if e.decide(e.truth(e.eval(st_.test, fr))):
+                    raise PathEnd()
+        eng.loop_specs = dict(getattr(eng, "loop_specs", {}))
+        eng.loop_specs[(QW + "AudioDataSaverWorker._get_non_existent_filename", 0)] = NameLoop()
         sr, sw, ch = Int("sr"), Int("sw"), Int("ch")
         fn = Opq(tag="str")
         which = eng.choose(2, None, "AudioDataSaverWorker / StreamSaverWorker")
@@ -1145,8 +1177,16 @@ def unit_saver_init(sess, ctx):
                       is_int(h.get("_total_cached")) and z3.is_true(z3.simplify(I(h["_total_cached"]) == 0)) and h.get("_reader") == rd, props=P13)
         sets = dict((x[0], x[1]) for x in log if x[0].startswith("set"))
         opens = [x for x in log if x[0] == "wave.open"]
-        eng.prove("C13:saver-init:wave-file-opened-for-writing-under-the-given-name",
-                  len(opens) == 1 and opens[0][1][0] is fn and opens[0][1][1] in ("wb", "w"), props=P1314)
+        if fmt == "ogg":
+            h_ = eng.st.heap[me.oid]
+            tmpn = h_.get("_tmp_output_filename")
+            eng.prove("C13:saver-init:intermediate-wav-gets-a-name-the-file-system-says-is-free",
+                      bool(exq) and exq[-1][0] is tmpn and tmpn is not fn and len(opens) == 1 and opens[0][1][0] is tmpn,
+                      props=P1314 + ("C15",))
+            eng.assume(Not(exq[-1][1]) if exq else z3.BoolVal(True))
+        else:
+            eng.prove("C13:saver-init:wave-file-opened-for-writing-under-the-given-name",
+                      len(opens) == 1 and opens[0][1][0] is fn and opens[0][1][1] in ("wb", "w"), props=P1314)
         eng.prove("C13:saver-init:header-gets-rate-width-channels-un-swapped",
                   sets.get("setframerate") is sr and sets.get("setsampwidth") is sw and sets.get("setnchannels") is ch, props=P1314)
         return None
